@@ -37,8 +37,9 @@ fn main() {
     let child = std::thread::Builder::new().stack_size(256 << 20).spawn(move || {
         match suite.as_str() {
             "unify" => {
-                let cfg = suite_unify::Cfg{props};
+                let cfg = suite_unify::Cfg{props, renamed: false};
                 let mut u = gen::Universe::c06();
+                let cfg = suite_unify::Cfg{props: cfg.props, renamed: has(&args, "--renamed")};
                 u.anon = has(&args, "--anon"); u.func = has(&args, "--func"); u.odd_floats = has(&args, "--oddfloats");
                 if let Some(body) = arg_val(&args, "--replay-case") {
                     match suite_unify::dec_case(&body) { Some(c) => suite_unify::emit(&mut out, &cfg, &c), None => { eprintln!("cannot decode case"); std::process::exit(2); } }
@@ -70,8 +71,8 @@ fn main() {
                     match kind.as_str() {
                         "cmp" => if ex { suite_builtins::run_cmp_exhaustive(&mut out, &cfg, shard, nshards) } else { suite_builtins::run_cmp_random(&mut out, &cfg, seed, n) },
                         "arith" => if ex { suite_builtins::run_arith_exhaustive(&mut out, &cfg, shard, nshards) } else { suite_builtins::run_arith_random(&mut out, &cfg, seed, n) },
-                        "append" => suite_builtins::run_append_random(&mut out, &cfg, seed, n),
-                        "c17" => suite_builtins::run_c17_random(&mut out, &cfg, seed, n),
+                        "append" => suite_builtins::run_append_random(&mut out, &cfg, seed, n, has(&args, "--no-tails")),
+                        "c17" => suite_builtins::run_c17_random(&mut out, &cfg, seed, n, has(&args, "--only-filter"), has(&args, "--no-tails")),
                         _ => { eprintln!("unknown kind"); std::process::exit(2); },
                     }
                 }
